@@ -19,12 +19,22 @@ var profile = gen.Profile{
 	PNote: 25, PGate: 70, PInvalid: 14, PUnknown: 10, PBatch: 45, MaxBatch: 5, PTopInvalid: 4,
 	PBurst: 35, Builtins: true, Pins: true,
 	AllowPush: true, PPush: 5, // half of the servers push-enabled: callbacks from outside and the peer's replies to them
-	Outcomes:      []string{"ok", "ok", "err:-32000", "err:7", "bad", "baderr", "err:-32600", "err:-32700"},
+	Outcomes:      []string{"ok", "ok", "err:-32000", "err:7", "bad", "baderr", "badraw", "emptyraw", "err:-32600", "err:-32700"},
 	Chans:         []string{"direct", "pipe", "fragile"},
 	PBaseDeadline: 0,
 }
 
 func genCase(t *rapid.T) sim.Scenario { return gen.ServerScenario(t, profile) }
+
+// idreuse: the same profile over a small pool of ids that are used again and
+// again after their calls were answered (with results, errors, unknown methods):
+// a valid call whose id is free is run, whatever the id's past.
+func genReuse(t *rapid.T) sim.Scenario {
+	p := profile
+	p.IDPool = []string{"1", "2", "3", `"a"`}
+	p.PGate, p.PUnknown, p.PBurst, p.PNote = 45, 22, 20, 10
+	return gen.ServerScenario(t, p)
+}
 
 func run(t *testing.T, sc sim.Scenario) engine.Verdict {
 	return oracle.RunServer(t, sc, []string{"C01/"}, func(f oracle.Facts) bool {
@@ -44,6 +54,21 @@ var parts = []engine.AnyPart{
 	engine.Part[sim.Scenario]{Name: "scenarios", Run: run, Gen: genCase,
 		Rule:        "rapid-generated scripts of 3-24 steps (inbound single/batch records mixing parking and immediate calls, notifications, unknown/reserved methods and 10 invalid shapes; releases in any order with result / error / unmarshalable outcomes; bursts of unsettled steps; hook delays from a generated salt and pins) run against a real Server in a synctest bubble and judged by the sequential model at every quiescent point; non-trivial = handlers of two records parked at once, or a batch whose handlers returned out of request order, or a batch mixing two of {call, notification, invalid}; distinct = hash of the whole scenario",
 		Assumptions: []string{"interleavings are steered at the verifPoint sites, by bursts and by gated handlers; pre-emption inside a critical section is not explored"}},
+}
+
+// runReuse reports one clause only: with ids in constant reuse the model has
+// to leave many races open, and what it then says about reply attribution is
+// C07's business; what is C01's own is a valid call with a free id that is
+// turned away without running.
+func runReuse(t *testing.T, sc sim.Scenario) engine.Verdict {
+	return oracle.RunServer(t, sc, []string{"C01/valid-call-turned-away"}, func(f oracle.Facts) bool {
+		return f.ParkedAcrossRecs || f.ExitOrderDiffers || f.BatchMixed
+	})
+}
+
+func init() {
+	parts = append(parts, engine.Part[sim.Scenario]{Name: "idreuse", Run: runReuse, Gen: genReuse,
+		Rule: "as scenarios, over a pool of four ids used again and again after their calls were answered with results, errors or method-not-found: a well-formed call whose id is free runs its handler exactly once and gets that handler's outcome (duplicates of ids still in flight are the subject of C07 and are not judged here); non-trivial as scenarios; distinct = hash of the scenario"})
 }
 
 func TestProp(t *testing.T)   { engine.RunParts(t, "C01", parts) }
